@@ -1,5 +1,6 @@
 import VOPyVerif.Proofs.AccuracyRegions
 import VOPyVerif.Proofs.AccuracyAuerGeom
+import VOPyVerif.Proofs.IntegrationRect
 /-!
 # C01 — valid confidence regions imply an ε-accurate Pareto set (PaVeBa family, Auer)
 
@@ -491,5 +492,260 @@ example :
     accB (identMat 2) (ones 2) 1 2 mu (auerRun 2 1 centre width 2).2 = false ∧
     errWithin (centre 1 0) (width 1 0) (mu 0) = false := by
   decide +kernel
+
+end VOPy.C01
+
+/-! # INTEGRATION — end-to-end statements about the executable decision core
+
+The theorems above take the per-round oracles as given and assume that they decide the semantic
+predicates.  Here the oracles are the *executable exact geometry models* (`Core.ballDom`,
+`Core.ballCov`, `Core.rectDom`, `Core.rectCov` = `Ellipsoid.isDominatedChecked`,
+`Covered.ballIsCovered`, `Rect.isDominatedChecked`, `Covered.rectIsCovered` applied to the displayed
+regions), the run is `Core.pavebaCore` (a table of displayed regions threaded through
+`Steps.pavebaRound`; `Core.pavebaCore_eq_run`: it *is* `Accuracy.pavebaRun` with the computed
+oracles), and that hypothesis is discharged by C09 (`ell_isDominated_iff_posDef`,
+`rect_isDominated_iff`) and C10 (`ball_isCovered_iff`, `rect_isCovered_iff`):
+
+  truth inside every refreshed displayed region
+    ⇒ (C09, C10)  the computed oracles are sound at the true means, region domination is a strict order
+    ⇒ (`Core.pavebaCore_roundSound`, persistence of the regions of `P ∖ U` through the table)  `RoundSound`
+    ⇒ (`paveba_invariant`)  (a), (b) at termination.
+
+What remains assumed is only the premise of the property (the truth is in the displayed regions) and
+that the real geometry predicates agree with their exact models (C09/C10 correspondence). -/
+namespace VOPy.C01
+open VOPy VOPy.Steps VOPy.Accuracy
+
+/-- **C01 for PaVeBa, end to end on the executable core.**  Any cone matrix `W` with rows of `m`
+entries and some non-zero entry, `α_n > 0` with one entry per facet, `ε > 0`, any number `K` of
+designs with true means of `m` entries, any initial region table and any sequence `fresh r i` of
+displayed balls.  `Core.ballCore` runs `Steps.pavebaRound` with the oracles *computed* from the
+displayed balls: `is_dominated` with scalar slack `0` (`Ellipsoid.isDominatedChecked`, `Σ = I`) and
+`is_covered` with the per-facet slack `ε·α` (`Covered.ballIsCovered`); only the balls of `S ∪ U` are
+refreshed in a round, the others keep their last displayed value.  If in every round `r < T` every
+refreshed design has a displayed ball of dimension `m` and positive radius that contains its true
+mean, and no candidate is left after round `T`, then the final `P` satisfies (a) every design outside
+`P` is weakly dominated by a member of `P`, and (b) `m(i,j) ≤ ε` for every `i ∈ P` and every `j`.
+No hypothesis about the oracles is left: C09 and C10 discharge it. -/
+theorem paveba_ball_end_to_end (W : Mat) (alpha : Vec) (eps : Rat) (m K : Nat) (mu : Nat → Vec)
+    (hW : ∀ w ∈ W, w.length = m) (hWne : ∃ w ∈ W, ∃ x ∈ w, x ≠ 0)
+    (hmu : ∀ i, i < K → (mu i).length = m)
+    (heps : 0 < eps) (hal : ∀ n, ∀ h : n < alpha.length, 0 < alpha[n])
+    (hlen : alpha.length = W.length)
+    (init : Nat → Core.Ball) (fresh : Nat → Nat → Core.Ball) (T : Nat)
+    (hvalid : ∀ r, r < T → ∀ i,
+      (i ∈ (Core.ballCore W alpha eps K init fresh r).S ∨
+        i ∈ (Core.ballCore W alpha eps K init fresh r).U) →
+      (fresh r i).c.length = m ∧ 0 < (fresh r i).a ∧ (fresh r i).mem (mu i) = true)
+    (hfinal : (Core.ballCore W alpha eps K init fresh T).S = []) :
+    accA W K mu (Core.ballCore W alpha eps K init fresh T).P = true ∧
+    accB W alpha eps K mu (Core.ballCore W alpha eps K init fresh T).P = true := by
+  have hl : (smul eps alpha).length = alpha.length := by simp [smul]
+  have hget : ∀ n, ∀ h1 : n < (smul eps alpha).length, ∀ h2 : n < alpha.length,
+      (smul eps alpha)[n] = eps * alpha[n] := by
+    intro n h1 h2; simp [smul]
+  have hWpos : 0 < W.length := by
+    obtain ⟨w, hw, _⟩ := hWne
+    exact List.length_pos_of_mem hw
+  have hpos : ∃ n, ∃ _ : n < W.length, ∃ h2 : n < (smul eps alpha).length, 0 < (smul eps alpha)[n] :=
+    ⟨0, hWpos, by omega, by rw [hget 0 (by omega) (by omega)]; exact mul_pos heps (hal 0 (by omega))⟩
+  obtain ⟨hA, hT⟩ := Core.pavebaCore_final W (smul eps alpha) m K mu hmu hpos
+    (Core.ballDom W) (Core.ballCov W (smul eps alpha))
+    (fun b x => b.mem x = true) (fun b => b.c.length = m ∧ 0 < b.a)
+    (fun a b x y wa wb mx my h => Core.ballDom_sound W m hW a b x y wa.1 wb.1 mx my h)
+    (fun a b c _ wa wb wc _ h1 h2 =>
+      Core.ballDom_trans W m hW a b c wa.1 wb.1 wc.1 (le_of_lt wb.2) h1 h2)
+    (fun a wa => Core.ballDom_irrefl W m hW hWne a wa.1 wa.2)
+    (fun a b x y wa wb mx my h => Core.ballCov_sound W m hW (smul eps alpha) (hl.trans hlen) a b x y
+      wa.1 wb.1 (le_of_lt wa.2) (le_of_lt wb.2) mx my h)
+    init fresh T
+    (fun r hr i hi => ⟨⟨(hvalid r hr i hi).1, (hvalid r hr i hi).2.1⟩, (hvalid r hr i hi).2.2⟩)
+    hfinal
+  exact ⟨hA, accB_of_accT W alpha (smul eps alpha) eps K mu _ (le_of_lt heps) hal
+    ⟨0, hWpos, by omega⟩ hl (fun k h1 h2 => le_of_eq (hget k h1 h2)) hT⟩
+
+/-- **C01 for the rectangular variants (PaVeBaGP-IH, PaVeBaPartialGP-hyperrectangle), end to end on
+the executable core.**  As `paveba_ball_end_to_end` with displayed boxes: `Core.rectCore` computes
+`is_dominated` with the scalar slack `0` (`Rect.isDominatedChecked`, the vertex-pair loop) and
+`is_covered` with the vector `ε·α` read as an objective-space shift (`Covered.rectIsCovered`, the LP
+the code builds; `ε·α` must then have `m` entries).  If every refreshed design has a displayed box of
+dimension `m` with positive width in every coordinate that contains its true mean, and `S = ∅` after
+round `T`, then (a) holds, and (b) holds under the side condition `W·(εα) ≤ εα` (equality for the
+orthant) exactly as in `paveba_rect_final_accurate`; without it only `accT W (W·(εα))` is available
+(defect D6). -/
+theorem paveba_rect_end_to_end (W : Mat) (alpha : Vec) (eps : Rat) (m K : Nat) (mu : Nat → Vec)
+    (hW : ∀ w ∈ W, w.length = m) (hWne : ∃ w ∈ W, ∃ x ∈ w, x ≠ 0)
+    (hmu : ∀ i, i < K → (mu i).length = m)
+    (heps : 0 ≤ eps) (hal : ∀ n, ∀ h : n < alpha.length, 0 < alpha[n])
+    (hlen : alpha.length = m)
+    (hpos : ∃ n, ∃ _ : n < W.length, ∃ h2 : n < (matVec W (smul eps alpha)).length,
+      0 < (matVec W (smul eps alpha))[n])
+    (hside : slackSideCondition W (smul eps alpha) (smul eps alpha) = true)
+    (init : Nat → Core.Box) (fresh : Nat → Nat → Core.Box) (T : Nat)
+    (hvalid : ∀ r, r < T → ∀ i,
+      (i ∈ (Core.rectCore W alpha eps K init fresh r).S ∨
+        i ∈ (Core.rectCore W alpha eps K init fresh r).U) →
+      (fresh r i).wfB m = true ∧ (fresh r i).mem (mu i) = true)
+    (hfinal : (Core.rectCore W alpha eps K init fresh T).S = []) :
+    accA W K mu (Core.rectCore W alpha eps K init fresh T).P = true ∧
+    accB W alpha eps K mu (Core.rectCore W alpha eps K init fresh T).P = true := by
+  have hl2 : (smul eps alpha).length = alpha.length := by simp [smul]
+  have hsm : (smul eps alpha).length = m := hl2.trans hlen
+  have hWnil : W ≠ [] := by
+    obtain ⟨w, hw, _⟩ := hWne
+    exact List.ne_nil_of_mem hw
+  have hxlen : ∀ (b : Core.Box) (x : Vec), b.wfB m = true → b.mem x = true → x.length = m := by
+    intro b x wb mx
+    rw [Core.Box.wfB_iff] at wb
+    exact (Core.Box.mem_length mx).1.symm.trans wb.1
+  have hvle : ∀ b : Core.Box, b.wfB m = true → vle b.l b.u = true := by
+    intro b wb
+    rw [Core.Box.wfB_iff] at wb
+    rw [vle_iff]
+    intro n h1 h2
+    exact le_of_lt (wb.2.2 n h1 h2)
+  obtain ⟨hA, hT⟩ := Core.pavebaCore_final W (matVec W (smul eps alpha)) m K mu hmu hpos
+    (Core.rectDom W [0]) (Core.rectCov W (smul eps alpha))
+    (fun b x => b.mem x = true) (fun b => b.wfB m = true)
+    (fun a b x y wa wb mx my h => Core.rectDom_zero_sound W m hW a b x y
+      ((Core.Box.wfB_iff m a).1 wa).1 mx my (hxlen a x wa mx) (hxlen b y wb my) h)
+    (fun a b c _ wa wb wc _ h1 h2 => Core.rectDom_trans W m hW a b c
+      ((Core.Box.wfB_iff m a).1 wa).1 ((Core.Box.wfB_iff m a).1 wa).2.1
+      ((Core.Box.wfB_iff m b).1 wb).1 ((Core.Box.wfB_iff m b).1 wb).2.1
+      ((Core.Box.wfB_iff m c).1 wc).1 ((Core.Box.wfB_iff m c).1 wc).2.1
+      (hvle a wa) (hvle b wb) (hvle c wc) h1 h2)
+    (fun a wa => Core.rectDom_irrefl W m hW hWne a ((Core.Box.wfB_iff m a).1 wa).1
+      ((Core.Box.wfB_iff m a).1 wa).2.1 ((Core.Box.wfB_iff m a).1 wa).2.2)
+    (fun a b x y wa wb mx my h => by
+      have hd := Core.rectCov_sound W m hW hWnil (smul eps alpha) (smul eps alpha)
+        (Core.expandSlack_self m _ hsm) a b x y mx my (hxlen a x wa mx) (hxlen b y wb my) h
+      cases hc : notCovers W (matVec W (smul eps alpha)) x y with
+      | true => rfl
+      | false =>
+        rw [(notCovers_matVec_iff W (smul eps alpha) x y ((hxlen a x wa mx).trans hsm.symm)
+          ((hxlen b y wb my).trans (hxlen a x wa mx).symm)).1 hc] at hd
+        exact absurd hd (by simp))
+    init fresh T hvalid hfinal
+  refine ⟨hA, ?_⟩
+  unfold slackSideCondition at hside
+  simp only [Bool.and_eq_true, decide_eq_true_eq] at hside
+  obtain ⟨hl, hv⟩ := hside
+  unfold vle at hv
+  rw [all_zipWith_iff] at hv
+  have hWpos : 0 < W.length := List.length_pos_of_ne_nil hWnil
+  have hlW : (matVec W (smul eps alpha)).length = W.length := by simp [matVec]
+  apply accB_of_accT W alpha (matVec W (smul eps alpha)) eps K mu _ heps hal
+    ⟨0, hWpos, by omega⟩ (hl.trans hl2)
+  · intro n h1 h2
+    have := hv n h1 (by omega)
+    simp only [decide_eq_true_eq] at this
+    have hg : (smul eps alpha)[n]'(by omega) = eps * alpha[n] := by simp [smul]
+    rw [hg] at this
+    exact this
+  · exact hT
+
+/-- **C01 for Auer with uniform width rows, end to end.**  Auer's rules read the displayed centres
+and width rows directly (`Steps.auerRound`), so the decision core is `Accuracy.auerRun`; with the
+uniform rows `(b, …, b)` of `use_empirical_beta = False` (`Core.auerUniformCore`) the premise of the
+property — the true mean lies in the displayed box `[c − b, c + b]` — is all that is needed: if it
+holds for every candidate in every round (`b > 0`, centres of `m ≥ 1` entries) and `S = ∅` after round
+`T`, the final `P` satisfies (a) and (b) for the componentwise order. -/
+theorem auer_box_end_to_end (m K : Nat) (hm : 0 < m) (eps : Rat) (heps : 0 ≤ eps) (mu : Nat → Vec)
+    (hmu : ∀ i, i < K → (mu i).length = m)
+    (centre : Nat → Nat → Vec) (width : Nat → Nat → Rat) (T : Nat)
+    (hvalid : ∀ r, r < T → ∀ i, i ∈ (Core.auerUniformCore K eps centre width r).1 →
+      (centre r i).length = m ∧ 0 < width r i ∧
+      inBox ((centre r i).map (· - width r i)) ((centre r i).map (· + width r i)) (mu i) = true)
+    (hfinal : (Core.auerUniformCore K eps centre width T).1 = []) :
+    accA (identMat m) K mu (Core.auerUniformCore K eps centre width T).2 = true ∧
+    accB (identMat m) (ones m) eps K mu (Core.auerUniformCore K eps centre width T).2 = true := by
+  apply auer_final_accurate m K hm eps heps mu hmu centre
+    (fun k i => List.replicate (centre k i).length (width k i)) T _ hfinal
+  intro r hr i hi
+  obtain ⟨hc, hb, hbox⟩ := hvalid r hr i hi
+  have hmul : (mu i).length = m := by
+    have := ((inBox_iff _ _ _).1 hbox).1
+    simpa [hc] using this.symm
+  refine ⟨hc, by simp [hc], ?_, ?_⟩
+  · rw [hc]
+    exact (errWithin_uniform_iff_inBox m hm (centre r i) (mu i) (width r i) hc hmul).2 hbox
+  · simp [widthsPos, hb]
+
+/-! ### non-vacuity of the end-to-end theorems: two rounds evaluated by the kernel
+
+Three designs with true means `(0,0)`, `(2,2)`, `(2,9/4)`, orthant cone, `α = (1,1)`, `ε = 1/2`.  The
+displayed regions are centred at the true means: radius / half-width `2` in round 0 (nothing can be
+decided: all three designs stay in `S`), `1/4` resp. `1/8` in round 1 (design 0 is discarded, designs
+1 and 2 — within `ε` of each other — reach `P`).  Every oracle answer is computed by the exact
+geometry models inside the kernel. -/
+
+private def exBalls : Nat → Nat → Core.Ball := fun r i => ⟨exMu i, if r = 0 then 2 else 1/4⟩
+private def exBoxes : Nat → Nat → Core.Box := fun r i =>
+  let h : Rat := if r = 0 then 2 else 1/8
+  ⟨(exMu i).map (· - h), (exMu i).map (· + h)⟩
+
+/-- `paveba_ball_end_to_end`: the hypotheses hold, the run of the core is
+`S = {0,1,2}` after round 0, then `S = ∅`, `P = {1,2}`, design 0 discarded; the theorem yields (a), (b). -/
+example :
+    (Core.ballCore (identMat 2) [1, 1] (1/2) 3 (fun _ => ⟨[], 0⟩) exBalls 1).S = [0, 1, 2] ∧
+    (Core.ballCore (identMat 2) [1, 1] (1/2) 3 (fun _ => ⟨[], 0⟩) exBalls 2).P = [1, 2] ∧
+    accA (identMat 2) 3 exMu (Core.ballCore (identMat 2) [1, 1] (1/2) 3 (fun _ => ⟨[], 0⟩) exBalls 2).P = true ∧
+    accB (identMat 2) [1, 1] (1/2) 3 exMu
+      (Core.ballCore (identMat 2) [1, 1] (1/2) 3 (fun _ => ⟨[], 0⟩) exBalls 2).P = true := by
+  refine ⟨by decide +kernel, by decide +kernel, ?_⟩
+  apply paveba_ball_end_to_end (identMat 2) [1, 1] (1/2) 2 3 exMu
+  · decide +kernel
+  · exact ⟨[1, 0], by decide +kernel, 1, by decide +kernel, by decide +kernel⟩
+  · decide +kernel
+  · norm_num
+  · decide +kernel
+  · rfl
+  · have h := Core.pavebaPremise_spec (Core.Ball.wfB 2) Core.Ball.mem 3 (Core.ballDom (identMat 2))
+      (Core.ballCov (identMat 2) (smul (1/2) [1, 1])) (fun _ => ⟨[], 0⟩) exBalls exMu 2 (by decide +kernel)
+    intro r hr i hi
+    obtain ⟨h1, h2⟩ := h r hr i hi
+    rw [Core.Ball.wfB_iff] at h1
+    exact ⟨h1.1, h1.2, h2⟩
+  · decide +kernel
+
+/-- `paveba_rect_end_to_end`: same scenario with boxes (orthant: the side condition holds with
+equality). -/
+example :
+    (Core.rectCore (identMat 2) [1, 1] (1/2) 3 (fun _ => ⟨[], []⟩) exBoxes 1).S = [0, 1, 2] ∧
+    (Core.rectCore (identMat 2) [1, 1] (1/2) 3 (fun _ => ⟨[], []⟩) exBoxes 2).P = [1, 2] ∧
+    accA (identMat 2) 3 exMu (Core.rectCore (identMat 2) [1, 1] (1/2) 3 (fun _ => ⟨[], []⟩) exBoxes 2).P = true ∧
+    accB (identMat 2) [1, 1] (1/2) 3 exMu
+      (Core.rectCore (identMat 2) [1, 1] (1/2) 3 (fun _ => ⟨[], []⟩) exBoxes 2).P = true := by
+  refine ⟨by decide +kernel, by decide +kernel, ?_⟩
+  apply paveba_rect_end_to_end (identMat 2) [1, 1] (1/2) 2 3 exMu
+  · decide +kernel
+  · exact ⟨[1, 0], by decide +kernel, 1, by decide +kernel, by decide +kernel⟩
+  · decide +kernel
+  · norm_num
+  · decide +kernel
+  · rfl
+  · exact ⟨0, by decide +kernel⟩
+  · decide +kernel
+  · exact Core.pavebaPremise_spec (Core.Box.wfB 2) Core.Box.mem 3 (Core.rectDom (identMat 2) [0])
+      (Core.rectCov (identMat 2) (smul (1/2) [1, 1])) (fun _ => ⟨[], []⟩) exBoxes exMu 2 (by decide +kernel)
+  · decide +kernel
+
+/-- `auer_box_end_to_end`: displayed boxes `[μ − 1/4, μ + 1/4]`, `ε = 1/2`: one round, design 0
+eliminated, designs 1 and 2 in `P`. -/
+example :
+    Core.auerUniformCore 3 (1/2) (fun _ => exMu) (fun _ _ => 1/4) 1 = ([], [1, 2]) ∧
+    accA (identMat 2) 3 exMu (Core.auerUniformCore 3 (1/2) (fun _ => exMu) (fun _ _ => 1/4) 1).2 = true ∧
+    accB (identMat 2) (ones 2) (1/2) 3 exMu
+      (Core.auerUniformCore 3 (1/2) (fun _ => exMu) (fun _ _ => 1/4) 1).2 = true := by
+  refine ⟨by decide +kernel, ?_⟩
+  apply auer_box_end_to_end 2 3 (by norm_num) (1/2) (by norm_num) exMu
+  · decide +kernel
+  · intro r hr i hi
+    have : r = 0 := by omega
+    subst this
+    have hi' : i ∈ [0, 1, 2] := hi
+    simp only [List.mem_cons, List.not_mem_nil, or_false] at hi'
+    rcases hi' with rfl | rfl | rfl <;> exact ⟨by decide +kernel, by norm_num, by decide +kernel⟩
+  · decide +kernel
 
 end VOPy.C01
